@@ -239,6 +239,7 @@ func c02Check(r *ev.Run, rng *rand.Rand, id string, c c02Case, nPerm int) int64 
 	// timestamps for the measurement variant
 	base := time.Unix(1700000000, 0).UTC()
 	tss := make([]time.Time, n)
+	tsMode := rng.IntN(6)
 	for i := range tss {
 		switch rng.IntN(3) {
 		case 0:
@@ -247,6 +248,18 @@ func c02Check(r *ev.Run, rng *rand.Rand, id string, c c02Case, nPerm int) int64 
 			tss[i] = base.Add(time.Duration(rng.Int64N(10)))
 		default:
 			tss[i] = base.Add(-time.Duration(rng.Int64N(1e15)))
+		}
+		switch tsMode { // timestamps far from the present, and the zero time a local clock reports
+		case 1:
+			if rng.IntN(2) == 0 {
+				tss[i] = time.Time{}
+			}
+		case 2:
+			tss[i] = time.Time{}
+		case 3:
+			tss[i] = time.Date(2200+rng.IntN(200), time.Month(1+rng.IntN(12)), 1+rng.IntN(28), rng.IntN(24), 0, 0, rng.IntN(1e9), time.UTC)
+		case 4:
+			tss[i] = time.Date(1+rng.IntN(9998), time.Month(1+rng.IntN(12)), 1+rng.IntN(28), rng.IntN(24), rng.IntN(60), rng.IntN(60), rng.IntN(1e9), time.UTC)
 		}
 	}
 	var evals int64
@@ -379,14 +392,15 @@ func c02Check(r *ev.Run, rng *rand.Rand, id string, c c02Case, nPerm int) int64 
 		}
 		checkPerm := func(fn string, ms []measurements.Measurement) {
 			type pr struct {
-				o int64
-				t int64
+				o  int64
+				t  int64
+				ns int
 			}
 			a := make([]pr, n)
 			b := make([]pr, n)
 			for i := range ms {
-				a[i] = pr{int64(ms[i].Offset), ms[i].Timestamp.UnixNano()}
-				b[i] = pr{c.Vals[i], tss[i].UnixNano()}
+				a[i] = pr{int64(ms[i].Offset), ms[i].Timestamp.Unix(), ms[i].Timestamp.Nanosecond()}
+				b[i] = pr{c.Vals[i], tss[i].Unix(), tss[i].Nanosecond()}
 			}
 			less := func(x, y pr) int {
 				if x.o != y.o {
@@ -400,7 +414,7 @@ func c02Check(r *ev.Run, rng *rand.Rand, id string, c c02Case, nPerm int) int64 
 				} else if x.t > y.t {
 					return 1
 				}
-				return 0
+				return x.ns - y.ns
 			}
 			slices.SortFunc(a, less)
 			slices.SortFunc(b, less)
